@@ -385,6 +385,20 @@ func (self *visitorUserNode) OnFloat64(v float64, n json.Number) error {
 		if err = self.p.WriteInt64(convertData); err != nil {
 			return err
 		}
+	case proto.Uint64Kind, proto.Fixed64Kind:
+		// an integer beyond MaxInt64 is reported as a float: take the exact value from the number text
+		u, perr := strconv.ParseUint(string(n), 10, 64)
+		if perr != nil {
+			return newError(meta.ErrConvert, "param isn't uint64", perr)
+		}
+		if fieldDesc.Kind() == proto.Uint64Kind {
+			err = self.p.WriteUint64(u)
+		} else {
+			err = self.p.WriteFixed64(u)
+		}
+		if err != nil {
+			return err
+		}
 	default:
 		return newError(meta.ErrDismatchType, "param isn't floatType", nil)
 	}
@@ -444,12 +458,18 @@ func (self *visitorUserNode) encodeMapKey(key string, t proto.Type) error {
 			return err
 		}
 	case proto.UINT32:
-		t, _ := strconv.ParseInt(key, 10, 32)
+		t, e := strconv.ParseUint(key, 10, 32)
+		if e != nil {
+			return e
+		}
 		if err := self.p.WriteUint32(uint32(t)); err != nil {
 			return err
 		}
 	case proto.UINT64:
-		t, _ := strconv.ParseInt(key, 10, 64)
+		t, e := strconv.ParseUint(key, 10, 64)
+		if e != nil {
+			return e
+		}
 		if err := self.p.WriteUint64(uint64(t)); err != nil {
 			return err
 		}
